@@ -94,6 +94,13 @@ func (t *fnTrans) atEntry() {
 	t.assume(eq(t.h.get(t.cur, "held"), heldInit))
 	t.assume(eq(t.h.get(t.cur, "rheld"), "((as const (Array Int Bool)) false)"))
 	t.ownEntry()
+	// the event log of this activation starts empty
+	for _, k := range []string{"spawned", "sent", "freed", "closed", "armed", "stopped", "fired", "broadcast", "read"} {
+		hv := t.h.reg("ghost:"+k, "(Array Int Bool)")
+		t.assume(eq(t.h.get(t.cur, hv), "((as const (Array Int Bool)) false)"))
+		hn := t.h.reg("ghost:"+k+".n", "Int")
+		t.assume(eq(t.h.get(t.cur, hn), "0"))
+	}
 	t.contractEntry()
 	if t.g.canary && t.contract != nil {
 		// vacuity guard: `false` must be refutable under the preconditions and invariants
